@@ -235,8 +235,28 @@ def _add_dict_ops(rng, case):
         ops.insert(rng.randint(0, len(ops)), op)
 
 
+def _add_faults(rng, case):
+    """a quarter of the rebasings happen while a listener, registered last on the rebased interface with the
+    public subscribe(), raises from changed(); the caller swallows the error (on HEAD the interface and all its
+    real dependents have been updated by then: same state as an ordinary rebasing)"""
+    for op in case["ops"]:
+        if op[0] == "setbases" and len(op) == 3 and rng.random() < 0.25:
+            op.append("fault")
+
+
+def _add_root_tags(rng, case):
+    """tagged values on Interface itself (the last element of every __iro__); sometimes set late"""
+    if rng.random() >= 0.15:
+        return
+    case["roottags"] = [[t, _tagval(rng, 900 + t)] for t in range(1, K_TAGS + 1) if rng.random() < 0.6]
+    if rng.random() < 0.4:
+        case["ops"].insert(rng.randint(0, len(case["ops"])), ["settag", 0, rng.randint(1, K_TAGS), _tagval(rng, 950)])
+
+
 def _gen_case(rng):
     case = _gen_case0(rng)
+    _add_faults(rng, case)
+    _add_root_tags(rng, case)
     _add_snaps(rng, case)
     _add_dict_ops(rng, case)
     return case
@@ -257,9 +277,9 @@ def _gen_case0(rng):
             bases[i] = [2, 3]
         else:
             r = rng.random()
-            if r < 0.12:
+            if r < 0.10:
                 bases[i] = [0]
-            elif r < 0.15:
+            elif r < 0.18:
                 bases[i] = []
             else:
                 k = min(i - 1, rng.choice([1, 1, 2, 2, 3]))
@@ -323,9 +343,9 @@ def _gen_case0(rng):
         x = rng.choice(withdesc if withdesc and rng.random() < 0.6 else cands)
         ok = [y for y in range(1, n + 1) if y != x and not _reaches(cur, y, x)]
         r = rng.random()
-        if not ok or r < 0.1:
+        if not ok or r < 0.08:
             nb = [0]
-        elif r < 0.13:
+        elif r < 0.16:
             nb = []
         else:
             nb = rng.sample(ok, min(len(ok), rng.choice([1, 1, 2, 2, 3])))
@@ -398,6 +418,8 @@ def _input(case):
     attrs = ["(%d, %s)" % (i + 1, C.clist(["(%d, %d)" % (a[0], i + 1) for a in al]))
              for i, al in enumerate(case["attrs"])]
     tags = []
+    if case.get("roottags"):
+        tags.append("(0, %s)" % C.clist(["(%d, %s)" % (t, _tv(v)) for t, v in case["roottags"]]))
     for i in range(n):
         tl = ["(%d, %s)" % (t, _tv(v)) for t, v in case["tags"][i]]
         if case["invs"][i]:
@@ -440,6 +462,7 @@ def _final_bases(case):
 
 def _final_tags(case):
     tg = {i + 1: {t for t, _ in tl} for i, tl in enumerate(case["tags"])}
+    tg[0] = {t for t, _ in case.get("roottags") or []}
     for op in case["ops"]:
         if op[0] == "settag":
             tg[op[1]].add(op[2])
